@@ -70,19 +70,30 @@ Record auth_out := mk_out {
   bound : option (str * str)    (* (users.username, domains.domain) the session is bound to *)
 }.
 
-(** auth.authenticateUser; [ens] = EnsureUserAndMailboxes succeeded,
-    [init] = users.password_initialized *)
-Definition authenticate_user (d u p : str) (b : outcome) (ens init : bool) : auth_out :=
+(** IMAPServer.EnsureUserAndMailboxes(username, domain) as seen by its caller:
+    [Some row] = it returned the id of the users row [row] = (users.username,
+    domains.domain); [None] = it returned an error.  The database layer
+    (GetOrCreateDomain, GetOrCreateUserInitialized, GetUserDB) is a parameter
+    of the model; what the property needs from it is [ensure_sound] in
+    Spec/AuthSpec.v: the row returned is the row of the pair it was called with. *)
+Definition ensure_fn := str -> str -> option (str * str).
+
+(** auth.authenticateUser; [ens] = EnsureUserAndMailboxes,
+    [init] = users.password_initialized of the row it returned *)
+Definition authenticate_user (d u p : str) (b : outcome) (ens : ensure_fn) (init : bool) : auth_out :=
   match d with
   | [] => mk_out [] R_NO None
   | _ =>
     if multi_at u then mk_out [] R_NO None else     (* refused before the backend is contacted *)
     let body := build_body (email_of d u) p in
     if accepted b then
-      if ens then
-        if init then mk_out [body] R_OK (Some (extract_username u, get_user_domain d u))
-        else mk_out [body] R_NO None
-      else mk_out [body] R_NO None
+      match ens (extract_username u) (get_user_domain d u) with
+      | Some row =>
+          (* state.UserID = the id returned: the session acts on that row's store *)
+          if init then mk_out [body] R_OK (Some row)
+          else mk_out [body] R_NO None
+      | None => mk_out [body] R_NO None
+      end
     else mk_out [body] R_NO None
   end.
 
@@ -132,7 +143,7 @@ Definition authplain_creds (authed tls : bool) (data : str) : creds :=
   | None => Direct R_NO
   end.
 
-Definition run_creds (d : str) (c : creds) (b : outcome) (ens init : bool) : auth_out :=
+Definition run_creds (d : str) (c : creds) (b : outcome) (ens : ensure_fn) (init : bool) : auth_out :=
   match c with
   | Creds u p => authenticate_user d u p b ens init
   | Direct r => mk_out [] r None
@@ -249,7 +260,7 @@ Definition entry_creds (authed : bool) (e : entry) : creds :=
   end.
 
 Record attempt := mk_attempt {
-  a_domain : str; a_entry : entry; a_backend : outcome; a_ens : bool; a_init : bool }.
+  a_domain : str; a_entry : entry; a_backend : outcome; a_ens : ensure_fn; a_init : bool }.
 
 Record sess := mk_sess { authed : bool; who : option (str * str) }.
 
